@@ -45,7 +45,8 @@ Record colobs := mkco {
   co_pre : bytes;                       (* WIP buffer before consolidation *)
   co_predict : list (bytes * list N);   (* deMap before consolidation (any order) *)
   co_precnt : N;
-  co_post_o : option bytes;             (* WIP buffer after consolidateColumnTypes; None = unchanged *)
+  co_post_o : option bytes;             (* column buffer after consolidateColumnTypes (= the payload of a raw block; a
+                                           rewritten column is always raw); None = unchanged *)
   co_enc : N;                           (* encoding byte on disk; 255 = the column has no block *)
   co_payload_o : option bytes;          (* payload on disk (raw blocks: after zstd decompression); None = equal to co_post *)
   co_seen : N;                          (* AllSeenColumnSizes after the flush; 0 = no entry *)
